@@ -18,16 +18,25 @@ class heap_int
 public:
   static constexpr long poison = 7777777;
   static inline unsigned long moved_reads = 0;
+  static inline long live_cells = 0; // heap cells currently alive (leak check)
+  struct cell
+  {
+    long v;
+    explicit cell(long const _v) : v(_v) { ++live_cells; }
+    cell(cell const &) = delete;
+    cell &operator=(cell const &) = delete;
+    ~cell() { --live_cells; }
+  };
 
-  heap_int() : cell_(std::make_unique<long>(0)) {}
+  heap_int() : cell_(std::make_unique<cell>(0)) {}
   // NOLINTNEXTLINE(google-explicit-constructor)
-  heap_int(long long const v) : cell_(std::make_unique<long>(static_cast<long>(v))) {}
-  heap_int(heap_int const &o) : cell_(o.cell_ ? std::make_unique<long>(*o.cell_) : nullptr) {}
+  heap_int(long long const v) : cell_(std::make_unique<cell>(static_cast<long>(v))) {}
+  heap_int(heap_int const &o) : cell_(o.cell_ ? std::make_unique<cell>(o.cell_->v) : nullptr) {}
   heap_int(heap_int &&) noexcept = default;
   heap_int &operator=(heap_int const &o)
   {
     if (this != &o)
-      cell_ = o.cell_ ? std::make_unique<long>(*o.cell_) : nullptr;
+      cell_ = o.cell_ ? std::make_unique<cell>(o.cell_->v) : nullptr;
     return *this;
   }
   heap_int &operator=(heap_int &&) noexcept = default;
@@ -40,7 +49,7 @@ public:
       ++moved_reads;
       return poison;
     }
-    return *cell_;
+    return cell_->v;
   }
   explicit operator long long() const { return get(); }
 
@@ -49,7 +58,7 @@ public:
   heap_int &operator*=(heap_int const &o) { return *this = heap_int(get() * o.get()); }
 
 private:
-  std::unique_ptr<long> cell_;
+  std::unique_ptr<cell> cell_;
 };
 
 inline heap_int operator+(heap_int const &a, heap_int const &b) { return heap_int(a.get() + b.get()); }
